@@ -33,6 +33,9 @@ CLAIMS = {
  "C09": dict(engine="execsim", level="exploration", design="4 C09",
    text="Adversarial transaction streams (byte strings, empty transactions, signed transactions to every precompile incl. the governance precompile with payload lengths around its parser offsets, malformed key-value payloads, unsigned, stale, future and replayed transactions, contract creations and calls) are executed by real full nodes; the node must survive every block, account nonces and receipts must match a reference nonce model transaction by transaction (valid exactly at the sender's current nonce, nonce +1 per valid transaction, replays invalid), key values must be the last valid write, and a twin replica executing the chain without the certainly-invalid transactions must end in the same application hash.",
    note="Input space (byte strings, bytecode) is sampled from a fixed catalogue; simulation adds node survival, replay across blocks, the differential twin and replica histories. Transactions whose validity depends on gas accounting are judged only differentially."),
+ "C11": dict(engine="triesim", level="exploration", design="4 C11",
+   text="Operation histories over keys with shared prefixes of every length (1-32 bytes from a 6-symbol alphabet, values 0-100 bytes): update, delete, get, hash, commit, clean reopen at the last committed root, crash inside TrieDB.Commit before its k-th batch write followed by reopen, injected batch write error; after every step Get agrees with a map model, roots equal reference go-ethereum v1.8.27's root for the same content and the root of a differently ordered history, reopen reproduces exactly the committed content, proofs verify to the stored value or absence exactly as the reference's do. StateDB histories (nonce, balance, storage, code, self-destruct, nested snapshot/revert, IntermediateRoot, Commit, reopen) run in lockstep with the reference StateDB and a model with a snapshot stack.",
+   note="No clock and no concurrency exist on this surface; the fault dimension is reopen, crash-reopen and write failure on the simulated disk. The history-independence and reference-equality halves are model-based history checking driven by the same seeded machinery."),
  "C12": dict(engine="csim", level="exploration", design="4 C12",
    text="After every adversarial prefix the fair suffix stops faults, restarts crashed nodes and delivers every pending message and timeout in canonical order; every honest node must commit the next height within a generous bound on simulated time. A panic or gcmn.Exit on any node goroutine, and a node blocked while holding its state lock, are reported at any time.",
    note="Gossip routines are replaced by the harness's fair delivery (including the peer-majority claims queryMaj23Routine would send); the bound is 3N+5 rounds of growing timeouts plus per-height catch-up allowance."),
@@ -48,7 +51,6 @@ CLAIMS = {
 }
 
 PLANNED = {
- "C11": "not claimed yet: triesim not built in this revision",
  "C13": "not claimed yet: syncsim not built in this revision",
  "C14": "not claimed yet: admin workload of execsim not built in this revision",
  "C19": "not claimed yet: poolsim not built in this revision",
@@ -84,6 +86,7 @@ def main():
         dict(name="signersim", path="/verif/sims/signersim", serves_properties=["C03"], kind_free_text="crash-point and write-error enumeration over the real signer file"),
         dict(name="fullnode", path="/verif/sims/fullnode", serves_properties=["C05", "C06", "C09"], kind_free_text="assembles a complete node (real Angine + real EVM application) over simulated disks without sockets"),
         dict(name="execsim", path="/verif/sims/execsim", serves_properties=["C05", "C06", "C09"], kind_free_text="one harness-built chain executed by many real full nodes with different process histories; crash-point enumeration over the commit path"),
+        dict(name="triesim", path="/verif/sims/triesim", serves_properties=["C11"], kind_free_text="trie / StateDB histories with commit, reopen, crash-reopen, write error; reference go-ethereum in lockstep"),
         dict(name="partsim", path="/verif/sims/partsim", serves_properties=["C17"], kind_free_text="part-set sender/receiver with reordering, duplicating, mutating network; Merkle proof mutations"),
         dict(name="valsetsim", path="/verif/sims/valsetsim", serves_properties=["C16"], kind_free_text="validator-set histories replayed on differently-batched / persisted replicas"),
     ]
